@@ -268,6 +268,8 @@ pub enum Con {
     AllDiff(Vec<View>),
     /// `Solver::add_clause` over arbitrary predicates
     PredClause(Vec<Pred>),
+    /// `Solver::add_clause` over predicates on views: (view, kind, value) = `[a*x+b kind value]`
+    ViewClause(Vec<(View, PredKind, i32)>),
     /// `constraints::clause`
     LitClause(Vec<Lit>),
     /// `constraints::conjunction`
@@ -333,6 +335,16 @@ impl Con {
                 true
             }
             Con::PredClause(ps) => ps.iter().any(|p| p.holds(asg)),
+            Con::ViewClause(ps) => ps.iter().any(|(v, k, c)| {
+                let e = v.eval(asg);
+                let c = *c as i128;
+                match k {
+                    PredKind::Ge => e >= c,
+                    PredKind::Le => e <= c,
+                    PredKind::Eq => e == c,
+                    PredKind::Ne => e != c,
+                }
+            }),
             Con::LitClause(ls) => ls.iter().any(|l| l.holds(asg)),
             Con::LitConj(ls) => ls.iter().all(|l| l.holds(asg)),
             Con::BoolLinLe(w, ls, r) => {
@@ -406,7 +418,7 @@ impl Con {
     /// Constraints which are posted as clauses and therefore cannot carry a tag.
     pub fn clausal(&self) -> bool {
         match self {
-            Con::PredClause(..) | Con::LitClause(..) | Con::LitConj(..) => true,
+            Con::PredClause(..) | Con::ViewClause(..) | Con::LitClause(..) | Con::LitConj(..) => true,
             Con::Implied(_, c) | Con::Reified(_, c) | Con::Neg(c) => c.clausal(),
             _ => false,
         }
@@ -432,6 +444,7 @@ impl Con {
                 v
             }
             Con::PredClause(ps) => ps.iter().map(|p| View::id(p.var)).collect(),
+            Con::ViewClause(ps) => ps.iter().map(|(v, _, _)| *v).collect(),
             Con::LitClause(ls) | Con::LitConj(ls) => ls.iter().map(|l| View::id(l.var)).collect(),
             Con::BoolLinLe(_, ls, _) => ls.iter().map(|l| View::id(l.var)).collect(),
             Con::BoolLinEq(_, ls, r) => {
@@ -474,6 +487,7 @@ impl Con {
             Con::Element { .. } => "element",
             Con::AllDiff(..) => "all_different",
             Con::PredClause(..) => "add_clause",
+            Con::ViewClause(..) => "add_clause_views",
             Con::LitClause(..) => "clause",
             Con::LitConj(..) => "conjunction",
             Con::BoolLinLe(..) => "bool_lin_le",
@@ -518,6 +532,22 @@ impl fmt::Display for Con {
                 "clause({})",
                 ps.iter()
                     .map(|p| p.to_string())
+                    .collect::<Vec<_>>()
+                    .join("|")
+            ),
+            Con::ViewClause(ps) => write!(
+                f,
+                "clause({})",
+                ps.iter()
+                    .map(|(v, k, c)| {
+                        let op = match k {
+                            PredKind::Ge => ">=",
+                            PredKind::Le => "<=",
+                            PredKind::Eq => "==",
+                            PredKind::Ne => "!=",
+                        };
+                        format!("[{v}{op}{c}]")
+                    })
                     .collect::<Vec<_>>()
                     .join("|")
             ),
